@@ -151,7 +151,7 @@ def entry_points(j, version, allow, is_observable_type):
     eps.append(("MemorySource.load_from_file(version=)", load_file(MemorySource)))
     import re
     # the directory layout can only address ids of UUID shape (a malformed id cannot name a version directory)
-    addressable = isinstance(id_, str) and isinstance(j.get("type"), str) and re.match(r"^[a-z0-9-]+--[0-9a-f]{8}-[0-9a-f]{4}-[0-9a-f]{4}-[0-9a-f]{4}-[0-9a-f]{12}$", id_)
+    addressable = isinstance(id_, str) and isinstance(j.get("type"), str) and re.match(r"^[a-z0-9-]+--[0-9a-f]{8}-[0-9a-f]{4}-[0-9a-f]{4}-[0-9a-f]{4}-[0-9a-f]{12}\Z", id_)
     if addressable:
         def fs_read(method):
             def f():
